@@ -61,6 +61,9 @@ pub enum Op {
     ConCommitted,
     /// constrain(LinearCombination::default()): a combination without any term (still one constraint row)
     ConEmpty,
+    /// constrain(lc + c * Committed(j) + const) where j is the index of the NEXT commitment, made only afterwards
+    /// (constraints are flattened at prove / verify time, so naming a variable ahead of its commitment is valid)
+    ConAhead,
     /// constrain(expression tree - const): the tree is built with every linear-combination
     /// operator (seed, depth) -- C15
     ConTree(u64, usize),
@@ -203,6 +206,8 @@ pub struct Shared<G: AffineRepr> {
     pub lc_width: usize,
     pub literal_witness: bool,
     pub zero_witness: bool,
+    /// value and blinding factor drawn ahead of time for the next commitment (ConAhead)
+    pub ahead: Option<(FOf<G>, FOf<G>)>,
     pub lit_count: usize,
     /// indices of the registered closures in the order the current role ran them / the prover ran them
     pub closure_runs: Vec<usize>,
@@ -379,7 +384,10 @@ impl<'g, 't, G: AffineRepr> RoleCS<G> for Prover<'g, G, &'t mut Transcript> {
             1 => (FOf::<G>::zero(), FOf::<G>::zero()),
             // the same value under the same blinding factor as the first commitment (an equal point)
             2 if !sh.v.is_empty() => (sh.v[0], sh.v_blinding[0]),
-            _ => (sh.draw("v"), sh.draw("vb")),
+            _ => match sh.ahead.take() {
+                Some(x) => x,
+                None => (sh.draw("v"), sh.draw("vb")),
+            },
         };
         let (V, var) = self.commit(v, vb);
         sh.v.push(v);
@@ -405,7 +413,10 @@ impl<'t, G: AffineRepr> RoleCS<G> for Verifier<G, &'t mut Transcript> {
         let (v, _vb) = match mode {
             1 => (FOf::<G>::zero(), FOf::<G>::zero()),
             2 if !sh.v.is_empty() => (sh.v[0], FOf::<G>::zero()),
-            _ => (sh.draw("v"), sh.draw("vb")),
+            _ => match sh.ahead.take() {
+                Some(x) => x,
+                None => (sh.draw("v"), sh.draw("vb")),
+            },
         };
         let j = sh.v.len();
         sh.v.push(v);
@@ -640,6 +651,21 @@ pub fn run_ops<G: AffineRepr, CS: RoleCS<G>>(cs: &mut CS, ops: &[Op], shr: &Rc<R
                 sh.con_vals.push(FOf::<G>::zero());
                 sh.cons.push((vec![], FOf::<G>::zero()));
             }
+            Op::ConAhead => {
+                let (lc, val, mut terms) = sh.lc(phase2, false);
+                let j = sh.v.len();
+                let (vf, vbf) = (sh.draw("v"), sh.draw("vb"));
+                sh.ahead = Some((vf, vbf));
+                let cf = sh.draw("c");
+                let q = sh.n_explicit_con;
+                sh.n_explicit_con += 1;
+                let e = if sh.err.con.contains(&q) { sh.draw("err") } else { FOf::<G>::zero() };
+                let c = sh.carry("const", e - val - cf * vf);
+                cs.constrain(lc + Variable::Committed(j) * cf + LinearCombination::from(c));
+                sh.con_vals.push(val + cf * vf + c);
+                terms.push((VK::C, j, cf));
+                sh.cons.push((terms, c));
+            }
             Op::Con | Op::ConConst | Op::ConCommitted | Op::ConSum => {
                 let (lc, val, terms) = match op {
                     Op::Con => sh.lc(phase2, false),
@@ -839,6 +865,7 @@ pub fn new_shared<G: AffineRepr>(shape: &Shape, err: &ErrPlan, src: Box<dyn Vals
         lc_width: shape.lc_width,
         literal_witness: shape.literal_witness,
         zero_witness: shape.zero_witness,
+        ahead: None,
         lit_count: 0,
         closure_runs: vec![],
         closure_runs_prover: vec![],
